@@ -269,6 +269,15 @@ def check(ctx):
             ctx.check(dedup, "C17.R12", f"{vu.qualname}:type-list", c, f"`{short(c, 60)}`: the types of the alternatives are concatenated as is: Union[int, NewType('U', int)] or Union[str, Path] gives {{\"type\": [\"integer\", \"integer\"]}}, invalid against the meta-schema", vu, c, detail="list(dict.fromkeys(types))")
     ctx.require(n12 >= 1, "_visited_union: folded type list not found")
 
+    # ---------------- R17: references are JSON pointers
+    ctx.rule("C17.R17", "the default reference factories build a JSON pointer to the definition: the type name is escaped (`~` -> `~0`, then `/` -> `~1`) - a name such as 'A/B' is stored under the key 'A/B' and referred to as '#/$defs/A~1B'", floor=1)
+    rp = model.func("apischema.json_schema.versions.ref_prefix")
+    t17 = norm(rp.node)
+    i0, i1 = t17.find("replace('~', '~0')"), t17.find("replace('/', '~1')")
+    ctx.check(i0 != -1 and i1 != -1 and i0 < i1, "C17.R17", f"{rp.qualname}:escape", None,
+              "the reference is the prefix followed by the raw type name: for type_name('A/B') the schema contains `$ref: '#/$defs/A/B'`, which points to the member 'B' of the member 'A' of $defs and does not resolve",
+              rp, rp.node, detail="ref.replace('~', '~0').replace('/', '~1')")
+
     # ---------------- R15: the inlining of an aggregate field's own type stops at that type
     ctx.rule("C17.R15", "`_ignore_first_ref` (set to inline the type of a flattened / properties field) is cleared before the value type of a mapping is visited: otherwise a properties field typed Dict[str, 'Node'] inlines Node inside Node for ever", floor=2)
     mp = model.func("apischema.json_schema.schema.SchemaBuilder.mapping")
@@ -364,6 +373,8 @@ def check(ctx):
 
 
 def mutants(mb):
+    mb.add_text("ref-not-escaped", "apischema/json_schema/versions.py", '    return lambda ref: prefix + ref.replace("~", "~0").replace("/", "~1")\n', "    return lambda ref: prefix + ref\n", "C17.R17", "escape")
+    mb.add_text("ref-escaped-wrong-order", "apischema/json_schema/versions.py", '    return lambda ref: prefix + ref.replace("~", "~0").replace("/", "~1")\n', '    return lambda ref: prefix + ref.replace("/", "~1").replace("~", "~0")\n', "C17.R17", "escape")
     mb.add_text("mapping-value-keeps-ignore-flag", "apischema/json_schema/schema.py", "            self._ignore_first_ref = False\n            value = self.visit(value_type)\n", "            value = self.visit(value_type)\n", "C17.R15", "mapping")
     mb.add_text("discriminated-parent-counted-once", "apischema/json_schema/refs.py", "            for _ in range(2):  # ensure ref count > 1\n                self._incr_ref(get_type_name(parent).json_schema, parent)\n", "            self._incr_ref(get_type_name(parent).json_schema, parent)\n", "C17.R16", "parent-count")
     mb.add_text("refs-skip-serialized-methods", "apischema/json_schema/refs.py", "        # serialized methods are properties of the schema too\n        for serialized, types in get_serialized_methods(tp):\n            self.visit_with_conv(types[\"return\"], serialized.conversion)\n", "", "C17.R14", "SerializationRefsExtractor")
